@@ -441,8 +441,8 @@ func (x *runner) pagesOps(v int, reps int) {
 //
 //   qone <api> <fv> <ndests> <logical response> WIRE <wire>      model-vs-code
 //
-// MapScanCAS is only driven with responses on which Iter.MapScan succeeds and that carry a column `[applied]`:
-// otherwise session.go:1389 `dest["[applied]"].(bool)` panics (proposed finding KF-C04-8, props/C04.findings.json).
+// MapScanCAS is driven also with responses on which Iter.MapScan fails and without a boolean `[applied]` column
+// (KF-C04-8, repaired: props/C04.fix-KF-C04-8.diff — an error is returned instead of a panic).
 
 func dumpQErr(err error) string {
 	if err == gocql.ErrNotFound {
@@ -567,11 +567,26 @@ func (x *runner) qoneOps(v int, reps int) {
 				}
 			case "mapscancas", "mapscan":
 				m = &meta{mode: 'G', ks: g.name(), tb: g.name()}
+				variant := g.r.Intn(8)
 				if api == "mapscancas" {
-					m.cols = append(m.cols, colSpec{name: []byte("[applied]"), t: nat(idBoolean)})
+					// since the repair of KF-C04-8 also: no [applied] column, an [applied] column that is not boolean
+					switch variant {
+					case 0:
+						class += "/no-applied-column"
+					case 1:
+						m.cols = append(m.cols, colSpec{name: []byte("[applied]"), t: nat(idVarchar)})
+						class += "/applied-not-boolean"
+					default:
+						m.cols = append(m.cols, colSpec{name: []byte("[applied]"), t: nat(idBoolean)})
+					}
 				}
 				for j, n := 0, g.r.Intn(4); j < n; j++ {
 					m.cols = append(m.cols, colSpec{name: []byte(fmt.Sprintf("c%d", j)), t: nat(textIDs[g.r.Intn(4)])})
+				}
+				if api == "mapscancas" && variant == 2 {
+					// a column without a Go type: Iter.MapScan returns false (C04_no_go_type_is_error)
+					m.cols = append(m.cols, colSpec{name: []byte("cx"), t: &typeDesc{kind: 'c', cls: []byte("x.Y")}})
+					class += "/column-without-go-type"
 				}
 			}
 			rows := g.rowsFor(m, 3)
